@@ -3,7 +3,8 @@ import XsdataModel.Tables
 import XsdataModel.Xml.Writer
 import XsdataModel.Xml.TblNsEnv
 import XsdataModel.Spec.XmlNs
-open Lean Proto Py Xs.Ns Xs.Sax Xs.Writer Spec.XmlNs
+import XsdataModel.Spec.ObjectTree
+open Lean Proto Py Xs.Ns Xs.Sax Xs.Writer Spec.XmlNs Spec.ObjectTree
 
 namespace OpsXml
 
@@ -91,6 +92,49 @@ def jCall : Call → Json
 
 def jNsMap (m : NsMap) : Json := jList (fun (e : Pfx × Str) => Json.arr #[jPfx e.1, jStr e.2]) m
 
+partial def asModelD (j : Json) : Except String ModelD := do
+  let cls ← getStr j "cls"
+  let metaName ← getOptStr j "meta_name"
+  let hasNs ← getBool j "has_ns"
+  let ns ← getOptStr j "namespace"
+  let fs ← getArr j "fields"
+  let fields ← fs.mapM fun f => do
+    let name ← getStr f "name"
+    let kind ← getStr f "kind"
+    match String.ofList kind with
+    | "attribute" => do
+        let loc ← getOptStr f "local"
+        let ans ← getOptStr f "namespace"
+        pure (FieldD.attr name loc ans)
+    | "text" => pure (FieldD.text name)
+    | _ => do
+        let loc ← getOptStr f "local"
+        let fns ← getOptStr f "namespace"
+        let isList ← getBool f "list"
+        let nillable ← getBool f "nillable"
+        let wrapper ← getOptStr f "wrapper"
+        let typ ← match f.getObjValD "type" with
+          | .str _ => pure none
+          | t => do
+              let m ← asModelD t
+              pure (some m)
+        pure (FieldD.elem name loc fns isList nillable wrapper typ)
+  pure (ModelD.mk cls metaName hasNs ns fields)
+
+partial def asIV (j : Json) : Except String IV :=
+  match j with
+  | .null => .ok .none
+  | .str s => .ok (.str s.toList)
+  | .arr a => do
+      let xs ← a.toList.mapM asIV
+      pure (.list xs)
+  | .obj kvs => do
+      let fs ← kvs.toList.mapM fun (k, v) => do
+        let v' ← asIV v
+        pure (k.toList, v')
+      pure (.obj fs)
+  | _ => .error "bad instance value"
+
 def getEvents (a : Json) : Except String (List Ev) := do
   let es ← getArr a "events"
   es.mapM asEv
@@ -123,6 +167,12 @@ def run (op : String) (a : Json) : Option (Except String Json) :=
       let es ← getEvents a
       let cfg ← getCfg a
       pure <| ok (jOpt jNode (eventsTree tblNsEnv cfg es))
+  | "ser.object" => some do
+      let m ← asModelD (a.getObjValD "model")
+      let inst ← asIV (a.getObjValD "inst")
+      match inst with
+      | .obj fs => pure <| ok (jNode (specRoot 16 m fs))
+      | _ => .error "instance must be an object"
   | "ns.clean" => some do
       let m ← asNsMap (a.getObjValD "ns_map")
       pure <| ok (jNsMap (serializerNsMap m))
